@@ -79,6 +79,7 @@ type c16src struct {
 	// (?seconds=N) and whose server answers after N simulated seconds; with
 	// no -seconds/-timeout flag pprof must wait N + N/2 (+5) seconds for it.
 	slowSecs int
+	comment  string // non-empty: a comment naming the source, to make the merge order visible
 	samples  []modelSample
 	addr     string
 	data     []byte
@@ -107,6 +108,9 @@ func c16Build(s *c16src) *profile.Profile {
 	}
 	m := &profile.Mapping{ID: 1, Start: 0x1000, Limit: 0x9000, File: "/bin/prog", BuildID: bid, HasFunctions: true}
 	p.Mapping = []*profile.Mapping{m}
+	if s.comment != "" {
+		p.Comments = []string{s.comment}
+	}
 	locs := map[int]*profile.Location{}
 	getLoc := func(fi int) *profile.Location {
 		if l, ok := locs[fi]; ok {
@@ -532,6 +536,17 @@ func (c *c16case) install() *c16net {
 	return n
 }
 
+// perfOnlyOutput reports whether the comments cannot be relied on (sources
+// converted by the scripted perf tool carry what that tool writes).
+func (c *c16case) perfOnlyOutput() bool {
+	for _, s := range c.srcs {
+		if s.kind == skPerf {
+			return true
+		}
+	}
+	return false
+}
+
 func (c *c16case) args(onlyGood bool) []string {
 	args := []string{"-proto", "-output=out.pb.gz"}
 	var srcs []string
@@ -755,8 +770,10 @@ func runC16(x *xctx) *violation {
 	// number of sources: weighted to small n, with the chunk boundaries.
 	var n int
 	switch k := t.Choose(K, 20); {
-	case k < 14:
+	case k < 11:
 		n = 1 + t.Choose(K, 6)
+	case k < 14:
+		n = 7 + t.Choose(K, 60) // one chunk, well beyond a handful
 	case k < 19:
 		n = []int{127, 128, 129, 130}[t.Choose(K, 4)]
 	default:
@@ -783,6 +800,7 @@ func runC16(x *xctx) *violation {
 		}
 	}
 	fileOnly := n > 10 && t.Bool(K, 50)
+	commented := t.Bool(K, 60)
 	for i := 0; i < n+nb; i++ {
 		s := &c16src{idx: i, base: i >= n}
 		s.kind = t.Choose(K, 3)
@@ -795,6 +813,9 @@ func runC16(x *xctx) *violation {
 		s.fault = c16FaultFor(t, s.kind, pctFail)
 		s.samples = c16GenSamples(t)
 		s.tornAt = 1 + t.Choose(simrt.KFault, 200)
+		if commented {
+			s.comment = fmt.Sprintf("src%03d", i)
+		}
 		if multiBuild {
 			s.buildID = []string{"b1d", "b2d", "b3d"}[t.Choose(K, 3)]
 		}
@@ -859,6 +880,39 @@ func runC16(x *xctx) *violation {
 		}
 		if bytes.Equal(only.out, got.out) {
 			x.probe("bytes_equal_to_only_good_run")
+		} else if n <= 128 && nb <= 128 {
+			// One chunk each for sources and bases, with or without the failed
+			// ones: the good sources are merged in the same (command-line) order
+			// in both runs, so the reports are the same bytes.
+			return violf("failure-dependent", "with %d sources and %d bases (one chunk each) the report differs in bytes from the run that lists only the good sources, although its content is the same: the good sources were not combined in command-line order: %s",
+				n, nb, firstDiff(pb.String(), pa.String()))
+		}
+	}
+	// 4. command-line order: the comments of the merged profile name the good
+	// plain sources in the order they were listed (each source carries one).
+	if got.err == nil && commented && !c.perfOnlyOutput() {
+		if pm, err := profile.Parse(bytes.NewReader(got.out)); err == nil {
+			var want, have []string
+			for _, s := range c.srcs {
+				if !s.base && s.fault == sfGood && s.comment != "" {
+					want = append(want, s.comment)
+				}
+			}
+			isBase := map[string]bool{}
+			for _, s := range c.srcs {
+				if s.base {
+					isBase[s.comment] = true
+				}
+			}
+			for _, cm := range pm.Comments {
+				if strings.HasPrefix(cm, "src") && !isBase[cm] {
+					have = append(have, cm)
+				}
+			}
+			if strings.Join(have, ",") != strings.Join(want, ",") {
+				return violf("merge-order", "the merged profile lists its sources as %v; the good sources on the command line are, in order, %v", have, want)
+			}
+			x.probe("merge_order_checked")
 		}
 	}
 	// probes and measures
